@@ -9,7 +9,7 @@ a = ap.parse_args()
 ROOT = os.path.dirname(os.path.dirname(os.path.abspath(__file__)))
 wt = '/tmp/vs_%d' % os.getpid()
 def sh(cmd, **kw):
-    return subprocess.run(cmd, shell=True, capture_output=True, text=True, **kw)
+    return subprocess.run(cmd, shell=True, capture_output=True, text=True, errors="replace", **kw)
 res = {}
 sh('git -C /repo worktree add --detach %s HEAD' % wt)
 try:
